@@ -1,7 +1,7 @@
 (* Dispatcher: one wire line = a list of cases [model_id; payload]. *)
 From Coq Require Import ZArith List Bool.
 From OV Require Import Base.Wire.
-From OV Require Model.NamedList Model.IsoTp Model.CodecWire Model.Compu Model.Dispatch Model.Inherit Model.Variant Model.Compare Model.Links.
+From OV Require Model.NamedList Model.IsoTp Model.CodecWire Model.Compu Model.Dispatch Model.Inherit Model.Variant Model.Compare Model.Links Model.Xml.
 Import ListNotations.
 Open Scope Z_scope.
 
@@ -19,6 +19,7 @@ Definition run_case (t : tok) : tok :=
   else if m =? 14 then Variant.run_case p
   else if m =? 18 then Compare.run_case p
   else if m =? 10 then Links.run_case p
+  else if m =? 11 then Xml.run_case p
   else TL [TZ (-999)].
 
 Definition run_wire (inp : list Z) : list Z :=
